@@ -11,6 +11,7 @@ import (
 	"os"
 	"os/exec"
 	"runtime"
+	"sort"
 	"strconv"
 	"strings"
 	"time"
@@ -19,6 +20,7 @@ import (
 	"github.com/quickfixgo/quickfix/datadictionary"
 
 	"verif/internal/core"
+	"verif/internal/ddwalk"
 	"verif/internal/fixscan"
 	"verif/internal/sessmc"
 )
@@ -511,6 +513,66 @@ func c09ForEach(tier string, shard, shards int, from int64, f func(idx int64, si
 			}
 		}
 	}
+	// (b2) every field of every shipped dictionary once in a message validated against that dictionary
+	// (validation looks at the declared type of every field it meets, whatever the message type)
+	if c13Load() == nil {
+		for _, dn := range c09DictNames {
+			ws := c13Walks[dn]
+			bs := map[string]string{"FIX40": "FIX.4.0", "FIX41": "FIX.4.1", "FIX42": "FIX.4.2", "FIX43": "FIX.4.3", "FIX44": "FIX.4.4"}[dn]
+			if bs == "" {
+				bs = "FIXT.1.1"
+			}
+			var tags []int
+			for t := range ws.FieldsByTag {
+				tags = append(tags, t)
+			}
+			sort.Ints(tags)
+			// carrier: the application message type with the fewest required body fields, built conforming
+			g, gerr := newC15Gen(dn)
+			if gerr != nil {
+				continue
+			}
+			var carrier *ddwalk.Msg
+			for _, m := range ws.Messages {
+				if dn != "FIXT11" && fixscan.IsAdminType(m.MsgType) {
+					continue
+				}
+				if carrier == nil || len(m.Required) < len(carrier.Required) {
+					carrier = m
+				}
+			}
+			if carrier == nil {
+				continue
+			}
+			base := g.message(carrier.MsgType, g.body(carrier, nil, 1))
+			for _, t := range tags {
+				if t == 8 || t == 9 || t == 10 || t == 35 || t == 212 || t == 213 {
+					continue
+				}
+				for _, v := range []string{"A", "1", "20240101-00:00:00"} {
+					f := append(append([]fixscan.Field{}, base...), fixscan.Field{Tag: t, Value: v})
+					in := fixscan.Build(f)
+					dn := dn
+					emit("validate-field:"+dn, in, fmt.Sprintf("%s field %d=%s", dn, t, v), func(d *c09Dicts) string {
+						m := quickfix.NewMessage()
+						if quickfix.ParseMessage(m, bytes.NewBuffer(append([]byte{}, in...))) != nil {
+							return ""
+						}
+						for _, si := range []int{27, 31} {
+							if dn[:4] == "FIX5" {
+								quickfix.NewValidator(c09Settings[si], d.byName[dn], d.byName["FIXT11"]).Validate(m)
+							} else if dn == "FIXT11" {
+								quickfix.NewValidator(c09Settings[si], d.byName["FIX50SP2"], d.byName["FIXT11"]).Validate(m)
+							} else {
+								quickfix.NewValidator(c09Settings[si], d.byName[dn], nil).Validate(m)
+							}
+						}
+						return ""
+					})
+				}
+			}
+		}
+	}
 	// (c) settings texts: all line sequences up to length 4 (3 quick)
 	maxLines := 3
 	if !quick {
@@ -633,6 +695,16 @@ func c09RunCase(cs c09Case) (bool, string, error) {
 			for i, s := range c09States {
 				if s.name == sk[1] {
 					viol = sinkSession(in, i)
+				}
+			}
+		case "validate-field":
+			m := quickfix.NewMessage()
+			if quickfix.ParseMessage(m, bytes.NewBuffer(append([]byte{}, in...))) == nil {
+				for _, name := range c09DictNames {
+					for _, si := range []int{27, 31} {
+						quickfix.NewValidator(c09Settings[si], d.byName[name], nil).Validate(m)
+						quickfix.NewValidator(c09Settings[si], d.byName[name], d.byName["FIXT11"]).Validate(m)
+					}
 				}
 			}
 		case "settings":
